@@ -287,7 +287,7 @@ fn clients_scenario(k: usize, rounds: usize, policy: u8) -> Verdict {
         world::wait_cond("never").await;
         drop(rep);
     });
-    let end = world::run(e3::HORIZON);
+    let end = world::run(e3::HORIZON * (1 + k as u64 / 2));
     let mut v = Verdict::default();
     v.truncated = end != world::RunEnd::Quiescent;
     let what = format!("{} REQ clients x {} rounds against one REP (default policy {})", k, rounds, policy);
@@ -449,6 +449,12 @@ pub fn run(tier: Tier, replay: Option<String>) -> i32 {
         jobs.push(e3::job(format!("C08/clients/{}x{}/policy{}", k, rounds, policy), json!({"case":"clients","k":k,"rounds":rounds,"policy":policy}), bound, cap, move || clients_scenario(k, rounds, policy)));
         if tier == Tier::Thorough {
             jobs.push(e3::job(format!("C08/clients/2x3/policy{}", policy), json!({"case":"clients","k":2,"rounds":3,"policy":policy}), 3, cap, move || clients_scenario(2, 3, policy)));
+        }
+    }
+    // scale family (not exhaustive in k): many concurrent clients under the default schedules
+    for &kk in tier.pick(&[9usize, 17, 33, 70][..], &[9usize, 17, 33, 70, 140, 270][..]) {
+        for policy in 0..3u8 {
+            jobs.push(e3::job(format!("C08/clients-scale/{}x3/policy{}", kk, policy), json!({"case":"clients","k":kk,"rounds":3,"policy":policy}), 0, 1000, move || clients_scenario(kk, 3, policy)));
         }
     }
     for first_exchanges in 0..=1usize {
